@@ -12,6 +12,58 @@ pub struct AllocTracker {
 #[derive(Debug)]
 struct AllocTrackerInner {
     bytes_left: AtomicUsize,
+    #[cfg(jxl_oxide_verif)]
+    verif: VerifState,
+}
+
+/// Verification hook state: allocation counters and a deterministic failure switch.
+#[cfg(jxl_oxide_verif)]
+#[derive(Debug)]
+struct VerifState {
+    alloc_calls: AtomicUsize,
+    fail_from: AtomicUsize,
+    outstanding: AtomicUsize,
+    peak_outstanding: AtomicUsize,
+}
+
+#[cfg(jxl_oxide_verif)]
+impl Default for VerifState {
+    fn default() -> Self {
+        Self {
+            alloc_calls: AtomicUsize::new(0),
+            fail_from: AtomicUsize::new(usize::MAX),
+            outstanding: AtomicUsize::new(0),
+            peak_outstanding: AtomicUsize::new(0),
+        }
+    }
+}
+
+#[cfg(jxl_oxide_verif)]
+impl AllocTracker {
+    /// Bytes currently left in the budget.
+    pub fn verif_bytes_left(&self) -> usize {
+        self.inner.bytes_left.load(Ordering::SeqCst)
+    }
+
+    /// Number of `alloc` calls made so far (successful or not).
+    pub fn verif_alloc_calls(&self) -> usize {
+        self.inner.verif.alloc_calls.load(Ordering::SeqCst)
+    }
+
+    /// Bytes held by live handles.
+    pub fn verif_outstanding(&self) -> usize {
+        self.inner.verif.outstanding.load(Ordering::SeqCst)
+    }
+
+    /// Largest value `verif_outstanding` has had.
+    pub fn verif_peak_outstanding(&self) -> usize {
+        self.inner.verif.peak_outstanding.load(Ordering::SeqCst)
+    }
+
+    /// Makes the `n`-th (0-based) and every later `alloc` call fail; `usize::MAX` turns it off.
+    pub fn verif_fail_from(&self, n: usize) {
+        self.inner.verif.fail_from.store(n, Ordering::SeqCst);
+    }
 }
 
 impl AllocTracker {
@@ -20,6 +72,8 @@ impl AllocTracker {
         Self {
             inner: Arc::new(AllocTrackerInner {
                 bytes_left: AtomicUsize::new(bytes_left),
+                #[cfg(jxl_oxide_verif)]
+                verif: VerifState::default(),
             }),
         }
     }
@@ -29,6 +83,13 @@ impl AllocTracker {
     /// Returns an error if the allocation exceeds the current limit.
     pub fn alloc<T>(&self, count: usize) -> Result<AllocHandle, crate::OutOfMemory> {
         let bytes = count * std::mem::size_of::<T>();
+        #[cfg(jxl_oxide_verif)]
+        {
+            let idx = self.inner.verif.alloc_calls.fetch_add(1, Ordering::SeqCst);
+            if idx >= self.inner.verif.fail_from.load(Ordering::SeqCst) {
+                return Err(crate::OutOfMemory::new(bytes));
+            }
+        }
         let result = self.inner.bytes_left.fetch_update(
             Ordering::Relaxed,
             Ordering::Relaxed,
@@ -38,6 +99,11 @@ impl AllocTracker {
         match result {
             Ok(prev) => {
                 tracing::trace!(bytes, left = prev - bytes, "Created allocation handle");
+                #[cfg(jxl_oxide_verif)]
+                {
+                    let now = self.inner.verif.outstanding.fetch_add(bytes, Ordering::SeqCst) + bytes;
+                    self.inner.verif.peak_outstanding.fetch_max(now, Ordering::SeqCst);
+                }
                 Ok(AllocHandle {
                     bytes,
                     inner: Arc::clone(&self.inner),
@@ -85,6 +151,8 @@ impl Drop for AllocHandle {
     fn drop(&mut self) {
         let bytes = self.bytes;
         let prev = self.inner.bytes_left.fetch_add(bytes, Ordering::Relaxed);
+        #[cfg(jxl_oxide_verif)]
+        self.inner.verif.outstanding.fetch_sub(bytes, Ordering::SeqCst);
         tracing::trace!(bytes, left = prev + bytes, "Released allocation handle");
         self.bytes = 0;
     }
